@@ -127,7 +127,7 @@ rs_register_eqns intListEq
 -- [poller] begin: trait-impl method resolution (`Rs/Interp.lean`, block [poller])
 rs_register_eqns SelfKind.hasRecv traitImplCands traitImplDecl
 -- by-reference arguments (`Rs/Interp.lean`, second block [poller])
-rs_register_eqns derefArgs writeBackArgs
+rs_register_eqns derefArgs writeBackArgs hasMutRefParam
 -- [poller] end
 -- [errors] BEGIN
 rs_register_eqns enumFromKeys fnPathArg fnPathParams fnPathArgs
